@@ -503,8 +503,9 @@ def run_property(pid, tier, seed, only=None, keep=False, nodiff=False):
     finally:
         if not keep: shutil.rmtree(work, ignore_errors=True)
     ev['wall_s'] = round(time.time() - t0, 2)
-    os.makedirs(os.path.join(ROOT, 'evidence'), exist_ok=True)
-    json.dump(ev, open(os.path.join(ROOT, 'evidence', pid + '.json'), 'w'), indent=1, default=str)
+    evdir = os.path.join(ROOT, 'evidence') if REPO == '/repo' else os.path.join(tempfile.gettempdir(), 'verif-evidence-scratch')       # trials against a scratch worktree (VERIF_REPO) never touch the committed evidence
+    os.makedirs(evdir, exist_ok=True)
+    json.dump(ev, open(os.path.join(evdir, pid + '.json'), 'w'), indent=1, default=str)
     return status, lines, ev
 
 
